@@ -426,6 +426,31 @@ WORDS = ['true', 'false', 'null', 'True', 'NULL', 'nulls', 'truth', 'android', '
 
 # ---------------------------------------------------------------------------------------------------------------
 
+# literals in company: each literal of an expression denotes its own value whatever other literals occur next to it
+LITS = [('1', 1), ('1.0', 1.0), ('0', 0), ('0.0', 0.0), ('2', 2), ('2.0', 2.0), ('10', 10), ('10.0', 10.0), ('true', True),
+        ('false', False), ('null', None), ("'1'", '1'), ('"1"', '1'), ('`1`', '1'), ('one', 'one'), ("'one'", 'one'),
+        ("'a\\\\'", 'a\\'), ("'b'", 'b'), ('"a\\\\"', 'a\\'), ('`a\\\\`', 'a\\\\'), ('`c`', 'c')]
+LITBOX = [(i,) for i in range(len(LITS))]
+
+
+def literal_pair(i: int, j: int) -> bool:
+    """
+    pre: 0 <= i < len(LITS) and 0 <= j < len(LITS)
+    post: _
+    """
+    a, b = LITS[LITBOX[i][0]], LITS[LITBOX[j][0]]
+    with H.NoTracing():
+        ok = True
+        for text in ('list(%s, %s)' % (a[0], b[0]), '[%s, [%s]]' % (a[0], b[0])):
+            try:
+                r = yq.ENG(text).evaluate(context=yq.ROOT.create_child_context())
+                x, y = r[0], (r[1][0] if isinstance(r[1], list) else r[1])
+                ok = ok and type(x) is type(a[1]) and x == a[1] and type(y) is type(b[1]) and y == b[1]
+            except Exception:
+                ok = False
+    return H.done(ok)
+
+
 def conditions(tier, seed):
     quick = tier == 'quick'
     slen = 4 if quick else 5
@@ -462,6 +487,10 @@ def conditions(tier, seed):
                 'bounds': 'every word of len <= %d over %r (enumerated) through the whole engine' % (wlen, KW_ALPHA)})
     out.append({'name': 'keyword[words]', 'func': 'keyword_words', 'timeout': 100,
                 'bounds': '%d selected words (constants, operator look-alikes, underscores, non-ASCII, long)' % len(WORDS)})
+    out.append({'name': 'literal_pair', 'func': 'literal_pair', 'timeout': t,
+                'bounds': 'every ordered pair of %d literal spellings (ints, integral floats, constants, the three quote styles, '
+                          'values ending in a backslash, keywords) in one expression: each keeps its own value and type '
+                          '(selectors: each path one concrete text)' % len(LITS)})
     if K_VERB in KNOWN:
         out.append({'name': 'probe[verbatim-odd-backslash-run]', 'func': 'probe_verbatim', 'timeout': 60, 'kind': 'probe',
                     'param': {'probe_key': K_VERB, 'slen': 3},
@@ -678,6 +707,9 @@ def replay(cond, args):
                 if not escape_check(kind, n, upper, width, q):
                     text, val = escape_case(kind, n, upper, width)
                     what = 'escape %s in %s-quotes: engine gives %r, reference %r' % (text, q, read_engine(q + text + q), val)
+    elif f == 'literal_pair':
+        a, b = LITS[vals['i']], LITS[vals['j']]
+        what = 'list(%s, %s) evaluates to %r, expected [%r, %r]' % (a[0], b[0], read_engine('list(%s, %s)' % (a[0], b[0])), a[1], b[1])
     elif f == 'unknown_escape':
         q = DEC_STYLES[1 if vals['dq'] and len(DEC_STYLES) > 1 else 0]
         text = q + vals['a'] + BS + vals['c'] + vals['a'] + q
